@@ -51,6 +51,16 @@ CHECKS = {
             "Generated tree shapes (fan-out up to 255 and unrepresentable 256/300, multipart nodes, DAG sharing incl. the same node several times) over four column variants; every live tree is traversed after every op; after drains the files are re-parsed (node reference counts == referencing parents, forest == model, zero entries when no tree is live).",
             "Existing-node references follow the client contract (nodes of trees live after all returned commits; not in a transaction that also dereferences).",
             "DESIGN.md 4 C10", "pdbv"),
+    "C17": ("exploration",
+            "exhaustive enumeration of the 384 column-option values for the metadata round trip + generated (stored, requested) option pairs with directory-snapshot equality + generated administration calls on generated databases (optionally crash images with pending logs) against the model, files re-parsed afterwards",
+            "The option space of the round trip is enumerated completely; mismatching opens must fail and leave a byte-identical directory; admin calls are applied to generated multi-column databases incl. directories with unreplayed logs and every other column must observe exactly as before, the affected one empty and writable, with nothing of it left in the files.",
+            "Requested options are valid (open asserts validity); 'as before' with pending logs = what a plain reopen of a copy shows.",
+            "DESIGN.md 4 C17", "pdbv"),
+    "C19": ("exploration",
+            "enumerated (index_bits x start x templates x key classes) + generated 64-slot pages through the verif_find_entry hook; differential oracle: vectorised search vs scalar search vs a set-based specification (F = compared-bit matches, E = exact matches)",
+            "Pure function over (index_bits, key, start, page): ~2M generated pages per quick run with slot classes built to hit the masks (near misses, dropped-bit-only differences, zero partial keys, duplicates); both implementations are checked against the specification sets.",
+            "The hook calls the two private search functions unchanged.",
+            "DESIGN.md 4 C19", "pdbv"),
 }
 
 NOT_YET = {
